@@ -33,10 +33,11 @@ def plain(v):
 
 
 @C.oracle('law')
-def o_law(src, right, datas, values):
+def o_law(src, right, datas, values, kw=None):
     a, b = C.get(src), C.get(right)
+    kw = kw or {}
     for d in datas:
-        ra, rb = side(lambda: a.parse(d)), side(lambda: b.parse(d))
+        ra, rb = side(lambda: a.parse(d, **kw)), side(lambda: b.parse(d, **kw))
         if ra[0] == 'foreign' or rb[0] == 'foreign':
             if ra[0] != rb[0]:
                 return 'parse(%r): left %r, right %r' % (d, ra, rb)
@@ -46,7 +47,7 @@ def o_law(src, right, datas, values):
         if ra[0] == 'ok' and not ((C.peq(ra[1], rb[1]) or C.peq(rb[1], ra[1]) or ra[1] != ra[1]) and repr(plain(ra[1])) == repr(plain(rb[1]))):
             return 'parse(%r): left %r, right %r' % (d, ra[1], rb[1])
     for v in values:
-        ra, rb = side(lambda: a.build(v)), side(lambda: b.build(v))
+        ra, rb = side(lambda: a.build(v, **kw)), side(lambda: b.build(v, **kw))
         if ra[0] == 'foreign' or rb[0] == 'foreign':
             if ra[0] != rb[0]:
                 return 'build(%r): left %r, right %r' % (v, ra, rb)
@@ -115,7 +116,10 @@ def laws(rng, tier):
         vals = [None, 0, 1, 255, 256, b'ab', b'a', 'ab', dict(a=1), dict(), 70000]
         out.append(('Optional(%s)' % x, 'Select(%s, Pass)' % x, datas, vals))
         out.append(('Struct("f"/Flag, "v"/If(this.f, %s))' % x, 'Struct("f"/Flag, "v"/IfThenElse(this.f, %s, Pass))' % x,
-                    [b'\x00' + d for d in datas] + [b'\x01' + d for d in datas], [dict(f=f, v=v) for f in (True, False) for v in vals]))
+                    [b'\x00' + d for d in datas] + [b'\x01' + d for d in datas], [dict(f=f, v=v) for f in (True, False) for v in vals] + [dict(f=False), dict(f=True), dict()]))
+        out.append(('Struct("f"/Byte, "x"/If(this.f, %s), "t"/Byte)' % x, 'Struct("f"/Byte, "x"/IfThenElse(this.f, %s, Pass), "t"/Byte)' % x,
+                    [], [dict(f=0, t=9), dict(f=1, t=9), dict(f=0, x=None, t=9), dict(t=9)]))
+        out.append(('Struct("s"/Optional(%s), "t"/Byte)' % x, 'Struct("s"/Select(%s, Pass), "t"/Byte)' % x, [], [dict(t=9), dict(s=None, t=9)]))
         out.append(('PrefixedArray(Byte, %s)' % x, 'FocusedSeq("items", "count"/Rebuild(Byte, len_(this.items)), "items"/%s[this.count])' % (x if '(' not in x or x.startswith('Const') or True else x),
                     [bytes([k]) + d * k for k in (0, 1, 2, 3) for d in datas], [[], [v for v in vals[:1]], [1, 2], [b'ab', b'cd'], ['ab'], [dict(a=1)], None, 5]))
         out.append(('%s[2]' % x if '(' not in x else '(%s)[2]' % x, 'Array(2, %s)' % x, [d + d for d in datas], [[1, 2], [b'ab', b'cd'], [None, None], ['ab', 'a'], [dict(a=1), dict(a=2)], [1]]))
@@ -157,6 +161,19 @@ def laws(rng, tier):
                 [b'\x00\x80\x01', b'\x01\x80\x01'], [dict(le=True, v=-2), dict(le=False, v=-2), dict(le=False, v=258)]))
     out.append(('Struct("le"/Flag, "v"/Bitwise(BitsInteger(16, swapped=this.le)))', 'Struct("le"/Flag, "v"/IfThenElse(this.le, Int16ul, Int16ub))',
                 [b'\x00\x80\x01', b'\x01\x80\x01'], [dict(le=True, v=258), dict(le=False, v=258)]))
+    # options given by the call's keyword arguments, read from inside a structure (one and two levels down)
+    for ref, wrap in [('this._params.sw', 'Struct("a"/Byte, "v"/%s)'), ('this._.sw', 'Struct("a"/Byte, "v"/%s)'), ('this._params.sw', 'Struct("a"/Byte, "s"/Struct("v"/%s))'),
+                      ('this._._.sw', 'Struct("a"/Byte, "s"/Struct("v"/%s))'), ('this._root._.sw', 'Sequence(Byte, Sequence(%s))'), ('this._params.sw', 'Array(2, %s)')]:
+        for n in (2, 3):
+            for sg in (False, True):
+                bi = 'BytesInteger(%d, signed=%s, swapped=%s)' % (n, sg, ref)
+                bw = 'Bitwise(BitsInteger(%d, signed=%s, swapped=%s))' % (8 * n, sg, ref)
+                by = 'Bitwise(Bytewise(%s))' % bi
+                bs = 'ByteSwapped(BytesInteger(%d, signed=%s, swapped=(%s == False)))' % (n, sg, ref)
+                ds = [b'\x07' + (b'\x80\x01\x02\x03' * 2)[:k] for k in (2 * n, n, 2 * n + 1)] + [(b'\x80\x01\x02\xff' * 2)[:2 * n]]
+                for sw in (True, False):
+                    for other in (bw, by, bs):
+                        out.append((wrap % bi, wrap % other, ds, [], dict(sw=sw)))
     out.append(('BitStruct("a"/BitsInteger(3), "b"/Flag, "c"/Nibble)', 'Bitwise(Struct("a"/BitsInteger(3), "b"/Flag, "c"/Nibble))', all_bytes(1, rng, 300) + [b''],
                 [dict(a=a, b=b, c=c) for a in (0, 7, 8) for b in (True, False) for c in (0, 15, 16)]))
     out.append(('BitStruct("a"/BitsInteger(12, signed=True), "b"/BitsInteger(4))', 'Bitwise(Struct("a"/BitsInteger(12, signed=True), "b"/BitsInteger(4)))',
@@ -176,14 +193,21 @@ def run(tier, seed):
     acc = C.Acc('C12', tier, seed)
     rng = C.rng_for(seed, 'C12')
     cases = []
-    for L, R, datas, vals in laws(rng, tier):
-        acc.check('law', L, right=R, datas=datas, values=vals)
+    for law in laws(rng, tier):
+        L, R, datas, vals = law[:4]
+        kw = law[4] if len(law) > 4 else {}
+        if kw:
+            acc.check('law', L, right=R, datas=datas, values=vals, kw=kw)
+        else:
+            acc.check('law', L, right=R, datas=datas, values=vals)
+        if kw:
+            continue        # options that are functions of the context are outside the model's syntax: side against side on the implementation only
         for d in datas[:40]:
-            cases.append(dict(src=L, op='parse', data=d))
-            cases.append(dict(src=R, op='parse', data=d))
+            cases.append(dict(src=L, op='parse', data=d, kw=kw))
+            cases.append(dict(src=R, op='parse', data=d, kw=kw))
         for v in vals[:20]:
-            cases.append(dict(src=L, op='build', obj=v))
-            cases.append(dict(src=R, op='build', obj=v))
+            cases.append(dict(src=L, op='build', obj=v, kw=kw))
+            cases.append(dict(src=R, op='build', obj=v, kw=kw))
     acc.corr(cases, 'laws')
     return acc.result(
         rule='every stated law (BytesInteger vs Bitwise(BitsInteger) and the Bytewise spelling for widths 1..16 x signed x swapped; Int24*, all Int*/'
